@@ -1,7 +1,7 @@
 (* C07 - Running out of time at any point in the search is safe (model-level part).
    The full statements (a)-(e) for every expiry index are decided on the real search by enumerating
    every k through the virtual clock and replaying each run node for node on the model. *)
-From Walleye Require Import Model.Search Proofs.DrawTableProofs Proofs.SearchBasics Proofs.RootProofs Proofs.MateText.
+From Walleye Require Import Model.Search Proofs.DrawTableProofs Proofs.SearchBasics Proofs.RootProofs Proofs.MateText Proofs.TableRestored.
 Open Scope Z_scope.
 
 (* (a) whatever is handed back, at whichever consultation the clock expires, is a generated root move *)
@@ -28,6 +28,22 @@ Proof. exact clock_monotone. Qed.
 Theorem C07_abort_value_not_a_cp_score : mate_number NEG_INF <> None /\ mate_number POS_INF <> None.
 Proof. exact abort_value_not_cp. Qed.
 
+(* (d) the whole search: whatever the position, the ordering, the window and the consultation at which
+   the clock expires, the repetition record handed to get_best_move is, as a lookup function, what
+   comes back -- every exit path of every node passes exactly one remove after its add *)
+Theorem C07_table_restored : forall zt osort k fuel b t ev s,
+  dt_nonneg t -> get_best_move zt osort k fuel b t = Ok (ev, s) -> dt_equiv (table s) t.
+Proof. exact get_best_move_restores. Qed.
+
+Theorem C07_node_restores_table : forall zt osort k fuel b d ply a be n s v s',
+  dt_nonneg (table s) -> alpha_beta zt osort k fuel b d ply a be n s = Ok (v, s') -> dt_equiv (table s') (table s).
+Proof. intros zt osort k fuel. exact (alpha_beta_restores zt osort k fuel). Qed.
+
+(* quiescence never touches the record *)
+Theorem C07_quiescence_leaves_table : forall zt osort fuel b a be s v s',
+  quiesce zt osort fuel b a be s = Ok (v, s') -> table s' = table s.
+Proof. intros zt osort fuel. exact (quiesce_pres zt osort fuel). Qed.
+
 (* (d) add followed by remove leaves every count of the record as it was *)
 Theorem C07_table_add_remove : forall t s k, dt_count (dt_remove (dt_add t s) s) k = dt_count t k.
 Proof. exact dt_count_remove_add. Qed.
@@ -37,3 +53,6 @@ Print Assumptions C07_expired_node_aborts.
 Print Assumptions C07_clock_monotone.
 Print Assumptions C07_abort_value_not_a_cp_score.
 Print Assumptions C07_table_add_remove.
+Print Assumptions C07_table_restored.
+Print Assumptions C07_node_restores_table.
+Print Assumptions C07_quiescence_leaves_table.
